@@ -30,8 +30,8 @@ DD = "black_it.utils.base:digitize_data"
 
 
 def run(ctx: Context) -> None:
-    r1_r3_get_closest(ctx)
-    r2_digitize(ctx)
+    ctx.rule(r1_r3_get_closest)
+    ctx.rule(r2_digitize)
 
 
 def r1_r3_get_closest(ctx: Context) -> None:
